@@ -128,6 +128,11 @@ def check(run):
             one_case(run, [s1, s2])
             run.count("tail regime mu*R^2=%g" % u)
         k += 1
+    from checks.common import near_cases, near_pair
+    for la, lb, sep, far in near_cases(run, 4):
+        s1, s2 = near_pair(rng, la, lb, sep, far)
+        one_case(run, [s1, s2], specs2=[s2.copy(sph=not s2.sph)] if la % 2 else None)
+        run.count("nearly coincident centres %g%s" % (sep, " far from origin" if far else ""))
     for l in range(6):
         hi = core.exp_cap(l)
         s1 = ShellSpec(l, [0.0, 0.0, 0.0], [hi, 0.02], [[1.0], [0.5]], sph=(l % 2 == 0))
